@@ -545,7 +545,8 @@ func (sp *subProcess) ceaseFlowMonitor(tracer tracing.ITracer) func(ctx context.
 	}
 }
 
-func (sp *subProcess) run(ctx context.Context, out tracing.ITracer) {
+func (sp *subProcess) run(ctx context.Context, out tracing.ITracer, sender tracing.ISenderHandle) {
+	defer sender.Done()
 	defer sp.cancel()
 	for {
 		select {
@@ -561,7 +562,13 @@ func (sp *subProcess) run(ctx context.Context, out tracing.ITracer) {
 					return
 				}
 			case nextActionMessage:
+				// this goroutine relays traces to the parent tracer and starts (registers) the inner nodes on
+				// the inner tracer: both tracers have to wait for it
+				relaying := out.RegisterSender()
+				starting := sp.subTracer.RegisterSender()
 				go func() {
+					defer relaying.Done()
+					defer starting.Done()
 					sp.active.Add(1)
 					defer sp.active.Add(-1)
 
@@ -625,7 +632,8 @@ func (sp *subProcess) NextAction(ctx context.Context, flow Flow) chan IAction {
 		sender := sp.subTracer.RegisterSender()
 		tracer := sp.wr.tracer
 		go sp.ceaseFlowMonitor(sp.subTracer)(ctx, sender)
-		go sp.run(ctx, tracer)
+		runner := tracer.RegisterSender()
+		go sp.run(ctx, tracer, runner)
 	}
 
 	response := make(chan IAction, 1)
